@@ -1,7 +1,7 @@
 //! Helpers shared by the per-property oracles.
 
 use rosu_pp::{
-    any::{DifficultyAttributes, Strains},
+    any::{DifficultyAttributes, PerformanceAttributes, ScoreState, Strains},
     catch::Catch,
     mania::Mania,
     model::{hit_object::HitObject, mode::GameMode},
@@ -50,6 +50,42 @@ pub fn strains_for_mode(d: &Difficulty, map: &Beatmap, mode: GameMode) -> Result
         GameMode::Mania => d.strains_for_mode::<Mania>(map).map(Strains::Mania),
     }
     .map_err(|e| format!("strains_for_mode({mode:?}) failed: {e}"))
+}
+
+/// `Difficulty::gradual_difficulty_for_mode::<M>` dispatched on a runtime mode, drained.
+pub fn mode_gradual_difficulty(d: &Difficulty, map: &Beatmap, mode: GameMode) -> Result<Vec<DifficultyAttributes>, String> {
+    let d = d.clone();
+    match mode {
+        GameMode::Osu => d.gradual_difficulty_for_mode::<Osu>(map).map(|g| g.map(DifficultyAttributes::Osu).collect()),
+        GameMode::Taiko => d.gradual_difficulty_for_mode::<Taiko>(map).map(|g| g.map(DifficultyAttributes::Taiko).collect()),
+        GameMode::Catch => d.gradual_difficulty_for_mode::<Catch>(map).map(|g| g.map(DifficultyAttributes::Catch).collect()),
+        GameMode::Mania => d.gradual_difficulty_for_mode::<Mania>(map).map(|g| g.map(DifficultyAttributes::Mania).collect()),
+    }
+    .map_err(|e| format!("gradual_difficulty_for_mode({mode:?}) failed: {e}"))
+}
+
+/// `Difficulty::gradual_performance_for_mode::<M>` dispatched on a runtime mode and walked with the
+/// mode-specific calculator's own `next` (every state but the last) and `last` (the last state);
+/// also reports `len()` before and after.
+pub fn mode_gradual_performance_walk(d: &Difficulty, map: &Beatmap, mode: GameMode, states: &[ScoreState]) -> Result<(usize, Vec<Option<PerformanceAttributes>>, usize), String> {
+    macro_rules! walk {
+        ($m:ty, $variant:ident) => {{
+            let mut g = d.clone().gradual_performance_for_mode::<$m>(map).map_err(|e| format!("gradual_performance_for_mode({mode:?}) failed: {e}"))?;
+            let before = g.len();
+            let mut out = Vec::new();
+            for (i, s) in states.iter().enumerate() {
+                let r = if i + 1 == states.len() { g.last(s.clone().into()) } else { g.next(s.clone().into()) };
+                out.push(r.map(PerformanceAttributes::$variant));
+            }
+            Ok((before, out, g.len()))
+        }};
+    }
+    match mode {
+        GameMode::Osu => walk!(Osu, Osu),
+        GameMode::Taiko => walk!(Taiko, Taiko),
+        GameMode::Catch => walk!(Catch, Catch),
+        GameMode::Mania => walk!(Mania, Mania),
+    }
 }
 
 /// Number of "passed objects" units the attributes account for (the unit `passed_objects` counts in).
